@@ -15,7 +15,7 @@ pub fn prop() -> Prop {
     Prop {
         id: "C19",
         level: "exploration",
-        rule: "generated runs of 1..=4 MIDAS files (.mid and .mid.lz4 mixed) x 0..=60 events (main / chronobox / sequencer / unknown ids interleaved; mostly small main events plus a few full forward-model events so vertex columns are populated), TRG timestamps stepping by up to 2^32-1 (several wraps), undecodable main events first / middle / last / all. The real alpha-g-vertices and alpha-g-trg-scalers binaries run as child processes for argument permutations (all <= 24 in the thorough tier) x RAYON_NUM_THREADS in {1,2,5,16}; the CSV is compared with a table computed by the harness (own file sort by initial timestamp, own 32-bit wrap-around scan, library calls in-process for vertex / scaler cells: bit equality of the parsed f64 / u32), outputs must be byte-identical after the two comment lines across thread counts and argument orders; refusals (mixed run numbers, duplicate initial timestamp, unknown / missing extension) must exit non-zero without a CSV. Thorough: valgrind memcheck on both binaries for .lz4 runs. Non-trivial = distinct runs (hash of file bytes) with >= 2 files or >= 1 wrap or >= 1 undecodable event. Also: timestamp steps of exactly 0, 2^31-1, 2^31, 2^32-1; > 32 KiB incompressible banks; .lz4 files written with a flush every 64..40 000 bytes; zero-length duplicate of a file placed first / last / far from its twin. Round 4: the foreign file carries run 0, 1, u32::MAX-1 (or the simulation's u32::MAX), is contiguous in time with the run (so nothing else is wrong), earliest or latest, and first / last / anywhere on the command line. Round 5: big-endian files and 16-bit / 32a bank flavours per file; files lasting minutes; main events repeating the previous TRG packet byte for byte; TRG clock starting at / landing on 0 and u32::MAX. Round 6: event-header unix times advancing through the file; unix times and serial numbers straddling 2^31 / near 2^32; serial numbers repeated across a file boundary, restarting per file, repeated inside a file. Round 7: zero-length banks that the library rejects; DAQ-style file names (runNNNNNsubNNN) whose sub-run index disagrees with the time order.",
+        rule: "generated runs of 1..=4 MIDAS files (.mid and .mid.lz4 mixed) x 0..=60 events (main / chronobox / sequencer / unknown ids interleaved; mostly small main events plus a few full forward-model events so vertex columns are populated), TRG timestamps stepping by up to 2^32-1 (several wraps), undecodable main events first / middle / last / all. The real alpha-g-vertices and alpha-g-trg-scalers binaries run as child processes for argument permutations (all <= 24 in the thorough tier) x RAYON_NUM_THREADS in {1,2,5,16}; the CSV is compared with a table computed by the harness (own file sort by initial timestamp, own 32-bit wrap-around scan, library calls in-process for vertex / scaler cells: bit equality of the parsed f64 / u32), outputs must be byte-identical after the two comment lines across thread counts and argument orders; refusals (mixed run numbers, duplicate initial timestamp, unknown / missing extension) must exit non-zero without a CSV. Thorough: valgrind memcheck on both binaries for .lz4 runs. Non-trivial = distinct runs (hash of file bytes) with >= 2 files or >= 1 wrap or >= 1 undecodable event. Also: timestamp steps of exactly 0, 2^31-1, 2^31, 2^32-1; > 32 KiB incompressible banks; .lz4 files written with a flush every 64..40 000 bytes; zero-length duplicate of a file placed first / last / far from its twin. Round 4: the foreign file carries run 0, 1, u32::MAX-1 (or the simulation's u32::MAX), is contiguous in time with the run (so nothing else is wrong), earliest or latest, and first / last / anywhere on the command line. Round 5: big-endian files and 16-bit / 32a bank flavours per file; files lasting minutes; main events repeating the previous TRG packet byte for byte; TRG clock starting at / landing on 0 and u32::MAX. Round 6: event-header unix times advancing through the file; unix times and serial numbers straddling 2^31 / near 2^32; serial numbers repeated across a file boundary, restarting per file, repeated inside a file. Round 7: zero-length banks that the library rejects; DAQ-style file names (runNNNNNsubNNN) whose sub-run index disagrees with the time order. Round 8: extensions that differ from the known ones in case only or are near misses (.MID, .mid.LZ4, .midx, .mid.lz, .mid.lz4.bak); the same file given twice (same path, path alias, symbolic link).",
         assumptions: &["MIDAS writer (harness/src/midas.rs) produces files midasio accepts", "the library's in-process result is the oracle for vertex / scaler cells (legitimate because C11 holds: results are reproducible bit for bit)"],
         profiles: release_only,
         shards: shards16,
